@@ -458,13 +458,12 @@ theorem kmDestroyK_spec (hca : cfg.ca = .gcsca) {m3 : Manifest} {C : Cert} {T : 
     not benign. -/
 theorem rotateKeyKms_gcs (hca : cfg.ca = .gcsca) (env : KmsEnv) (req : Req) (n0 : Nat)
     (hK : cfg.bump m0.signing = verName env.parent (n0 + 1))
-    (ht1 : target cfg req m0 ≠ manifestName) (ht2 : target cfg req m0 ≠ cfg.rootPath)
-    (ht3 : target cfg req m0 ≠ path0) :
-    Tr sc (cfg.overwrite && env.benign)
+    (ht1 : target cfg req m0 ≠ manifestName) (ht2 : target cfg req m0 ≠ cfg.rootPath) :
+    Tr sc ((cfg.overwrite && !claimed cfg req m0) && env.benign)
       (fun s => Ph cfg m0 r c0 path0 false none s ∧ s.kcount = n0 ∧
         lookup s.keys (verName env.parent (n0 + 1)) = none)
       (rotateKeyKms cfg env req)
-      (fun kv s => kv = cfg.bump m0.signing ∧ ∃ mat, (InvG cfg (rotatedManifest cfg req m0) r
+      (fun kv s => kv = cfg.bump m0.signing ∧ claimed cfg req m0 = false ∧ ∃ mat, (InvG cfg (rotatedManifest cfg req m0) r
         ⟨req.cn, req.serial, mat, r.pub⟩ (target cfg req m0) s ∧ DAC cfg s.log ∧ DACK cfg s.log) ∧
         lookup s.keys m0.signing = none ∧ lookup s.kdead m0.signing = some .scheduled)
       (SafeK cfg) := by
@@ -516,15 +515,18 @@ theorem rotateKeyKms_gcs (hca : cfg.ca = .gcsca) (env : KmsEnv) (req : Req) (n0 
   rw [hmu2]
   show Triple sc _ (caFinalize cfg _ mu.certs >>= fun _ => _) _ _ _
   rw [hmu.1, hc]
-  have hfin : Tr sc (cfg.overwrite && env.benign) (Ph cfg m0 r c0 path0 true (some (cfg.bump m0.signing, mat)))
+  have hfin : Tr sc ((cfg.overwrite && !claimed cfg req m0) && env.benign) (Ph cfg m0 r c0 path0 true (some (cfg.bump m0.signing, mat)))
       (caFinalize cfg { mu with primarySigning := some (cfg.bump m0.signing) }
         [(cfg.bump m0.signing, ⟨req.cn, req.serial, mat, r.pub⟩)])
-      (fun _ s => PhD cfg m0 r c0 (rotatedManifest cfg req m0) ⟨req.cn, req.serial, mat, r.pub⟩ (target cfg req m0) .ok s)
+      (fun _ s => claimed cfg req m0 = false ∧
+        PhD cfg m0 r c0 (rotatedManifest cfg req m0) ⟨req.cn, req.serial, mat, r.pub⟩ (target cfg req m0) .ok s)
       (SafeK cfg) :=
-    Tr.weaken (Tr.and_ow env.benign (caFinalize_spec hca hst.2.2 hb2 req mat _ hmu.2.1 rfl hmu.2.2.2 ht1 ht2 ht3))
+    Tr.weaken (Tr.and_ow env.benign (caFinalize_spec hca hst.2.2 hb2 req mat _ hmu.2.1 rfl hmu.2.2.2 ht1 ht2))
       (fun _ h => h) (fun _ _ h => h) (fun _ h => h.safeK)
   refine Triple.bind hfin ?_
   intro _
+  refine Triple.of_fact ?_
+  intro hcf
   refine Triple.bind (Q1 := fun _ s => (InvG cfg (rotatedManifest cfg req m0) r ⟨req.cn, req.serial, mat, r.pub⟩ (target cfg req m0) s ∧ DAC cfg s.log ∧ DACK cfg s.log) ∧
       lookup s.keys m0.signing = none ∧ lookup s.kdead m0.signing = some .scheduled) ?_ ?_
   · unfold destroyOldK
@@ -533,7 +535,7 @@ theorem rotateKeyKms_gcs (hca : cfg.ca = .gcsca) (env : KmsEnv) (req : Req) (n0 
         (by rw [rotatedManifest_root]; exact Ne.symm hst.1)
     · exact hne hst.2.1
   intro _
-  exact Triple.pure _ (fun s h => ⟨rfl, mat, h⟩)
+  exact Triple.pure _ (fun s h => ⟨rfl, hcf, mat, h⟩)
 
 end gcs
 
@@ -620,7 +622,10 @@ theorem writeIfAllowed_frame (cfg : Cfg) (o : String) (d : Obj) : Frame (writeIf
 
 theorem upload_frame (cfg : Cfg) (k : String) (c : Cert) : Frame (upload cfg k c) := by
   unfold upload
-  refine Frame.bind Frame.getSt (fun s => Frame.bind (writeIfAllowed_frame _ _ _) (fun _ => Frame.modSt _ (fun _ => rfl)))
+  refine Frame.bind Frame.getSt (fun s => ?_)
+  split
+  · exact Frame.throw
+  · exact Frame.bind (writeIfAllowed_frame _ _ _) (fun _ => Frame.modSt _ (fun _ => rfl))
 
 theorem uploadAll_frame (cfg : Cfg) (l : List (String × Cert)) : Frame (uploadAll cfg l) := by
   induction l with
@@ -866,6 +871,15 @@ def InvKms (cfg : Cfg) (env : KmsEnv) (s : St) : Prop := Inv cfg.kmsView s ∧ K
 def FreshKms (cfg : Cfg) (env : KmsEnv) (req : Req) (s : St) : Prop :=
   Fresh (cfg.withNew (nextName env s)) req s
 
+/-- the request does not name a certificate object that the stored manifest records for a key version
+    other than the NEXT one (needed for a rotation to succeed, not for failure atomicity) -/
+def UnclaimedKms (cfg : Cfg) (env : KmsEnv) (req : Req) (s : St) : Prop :=
+  Unclaimed (cfg.withNew (nextName env s)) req s
+
+/-- gcsca.upload will refuse the rotation's certificate -/
+def ClaimedKms (cfg : Cfg) (env : KmsEnv) (req : Req) (s : St) : Prop :=
+  Claimed (cfg.withNew (nextName env s)) req s
+
 theorem InvKms.primaryOK {cfg : Cfg} {env : KmsEnv} {s : St} (h : InvKms cfg env s) : PrimaryOK cfg s :=
   h.1.primaryOK
 
@@ -885,9 +899,10 @@ theorem rotateKms_run_facts (cfg : Cfg) (env : KmsEnv) (req : Req) (sc : Nat →
     (hca : cfg.ca = .gcsca) (hi : InvKms cfg env s) (hf : FreshKms cfg env req s) :
     match rotateKeyKms cfg env req sc s.reload with
     | .ok k s' => InvKms cfg env s' ∧ DAC cfg s'.log ∧ DACK cfg s'.log ∧ primaryOf cfg s' = k ∧ k = nextName env s ∧
-        lookup s'.keys (primaryOf cfg s) = none ∧ lookup s'.kdead (primaryOf cfg s) = some .scheduled
+        lookup s'.keys (primaryOf cfg s) = none ∧ lookup s'.kdead (primaryOf cfg s) = some .scheduled ∧
+        ¬ ClaimedKms cfg env req s
     | .err s' => (InvKms cfg env s' ∧ DAC cfg s'.log ∧ DACK cfg s'.log) ∧
-        (¬ NoFault sc ∨ cfg.overwrite = false ∨ env.benign = false)
+        (¬ NoFault sc ∨ cfg.overwrite = false ∨ ClaimedKms cfg env req s ∨ env.benign = false)
     | .crash s' => (InvKms cfg env s' ∧ DAC cfg s'.log ∧ DACK cfg s'.log) ∧ ¬ NoFault sc := by
   obtain ⟨hinv, hhyg⟩ := hi
   unfold Inv at hinv
@@ -899,28 +914,41 @@ theorem rotateKms_run_facts (cfg : Cfg) (env : KmsEnv) (req : Req) (sc : Nat →
   have h0K : InvG (cfg.withNew (nextName env s)) m0 r c0 path0 s := h0.rebump rfl (fun _ => hKr)
   unfold FreshKms Fresh at hf
   rw [show (cfg.withNew (nextName env s)).ca = CAKind.gcsca from hca] at hf
-  obtain ⟨ht1, ht2, ht3⟩ := hf m0 h0.man
+  obtain ⟨ht1, ht2⟩ := hf m0 h0.man
+  have hclaim : ClaimedKms cfg env req s ↔ claimed (cfg.withNew (nextName env s)) req m0 = true := by
+    unfold ClaimedKms Claimed
+    constructor
+    · rintro ⟨_, m, hm, hc⟩
+      rw [h0.man] at hm
+      injection hm with hm; injection hm with hm
+      rw [hm]; exact hc
+    · intro hc; exact ⟨hca, m0, h0.man, hc⟩
   have hP : Ph (cfg.withNew (nextName env s)) m0 r c0 path0 false none s.reload :=
     ⟨h0K.transfer rfl rfl, Or.inl rfl, fun e he => (by cases he), fun _ _ e => (by cases e)⟩
   have main := rotateKeyKms_gcs (cfg := cfg.withNew (nextName env s)) (sc := sc) hca env req s.kcount rfl
-    ht1 ht2 (ht3 path0 h0.entry) s.reload ⟨hP, rfl, hKn⟩
+    ht1 ht2 s.reload ⟨hP, rfl, hKn⟩
   rw [rotateKeyKms_withNew] at main
   have hyg := rotateKeyKms_hyg (sc := sc) cfg env req s.reload hhyg
   cases hr : rotateKeyKms cfg env req sc s.reload with
   | ok k s' =>
     rw [hr] at main hyg
-    obtain ⟨hk, mat, ⟨hinv', hdac, hdack⟩, hgone, hsched⟩ := main
+    obtain ⟨hk, hcf, mat, ⟨hinv', hdac, hdack⟩, hgone, hsched⟩ := main
     have hp0 : primaryOf cfg s = m0.signing := by
       unfold primaryOf; rw [hca, h0.man]
-    refine ⟨⟨?_, hyg⟩, hdac, hdack, ?_, hk, by rw [hp0]; exact hgone, by rw [hp0]; exact hsched⟩
+    refine ⟨⟨?_, hyg⟩, hdac, hdack, ?_, hk, by rw [hp0]; exact hgone, by rw [hp0]; exact hsched, ?_⟩
     · exact Inv_of_withNew hca (by unfold Inv; rw [show (cfg.withNew (nextName env s)).ca = CAKind.gcsca from hca]; exact ⟨_, _, _, _, hinv'⟩)
     · unfold primaryOf; rw [hca, hinv'.man, hk]; exact rotatedManifest_signing req
+    · rw [hclaim, hcf]; simp
   | err s' =>
     rw [hr] at main hyg
     refine ⟨⟨⟨Inv_of_withNew hca main.1.1, hyg⟩, main.1.2.1, main.1.2.2⟩, ?_⟩
     rcases main.2 with h | h
     · exact Or.inl h
-    · exact Or.inr (and_false_cases h)
+    · rcases and_false_cases h with h | h
+      · rcases and_false_cases' h with h | h
+        · exact Or.inr (Or.inl h)
+        · exact Or.inr (Or.inr (Or.inl (hclaim.mpr h)))
+      · exact Or.inr (Or.inr (Or.inr h))
   | crash s' =>
     rw [hr] at main hyg
     exact ⟨⟨⟨Inv_of_withNew hca main.1.1, hyg⟩, main.1.2.1, main.1.2.2⟩, main.2⟩
